@@ -115,7 +115,8 @@ def bylevel_rules(ctx):
               "per-level buffer is not assigned on both bint and ~bint", key="cover")
     aps = [norm(n) for n in walk_no_nested(fi.node) if isinstance(n, ast.Expr) and ".append(" in norm(n)]
     ok = "level_data.append(data)" in aps and "all_data.append(level_data)" in aps and \
-        any(isinstance(n, ast.For) and norm(n.iter) == "range(self.nfidxs)" for n in ast.walk(lv[1])) if len(lv) == 2 else False
+        any(isinstance(n, ast.For) and rules.is_count_range(n.iter, "self.nfidxs", ("left[lv]['data']", "right[lv]['data']"))
+            for n in ast.walk(lv[1])) if len(lv) == 2 else False
     ctx.check(ok, f"{P}.COUNT", site, "one array per field per level, in field order", f"appends are {aps}", key="arrays")
     rets = [norm(n.value) for n in walk_no_nested(fi.node) if isinstance(n, ast.Return)]
     ctx.check(rets == ["(all_data, box_indexes, box_headers)"], f"{P}.RETURN", site, "returns (data by level, box ids "
